@@ -103,6 +103,7 @@ type Stats struct {
 	LeakedTasks     uint64
 	Selects         uint64
 	TimersFired     uint64
+	ForcedGCs       uint64
 	Fingerprint     uint64
 	Truncated       bool
 	Aborted         string
